@@ -52,6 +52,7 @@ toolgen = _load("toolgen")
 image_stage = _load("image_stage")       # whole-image stage (coq/Image): see props/C03/image_stage.py
 xattr_stage = _load("xattr_stage")       # xattr section (coq/ImgXattr): see props/C03/xattr_stage.py
 valid_stage = _load("valid_stage")       # valid_image_full (coq/ImgValid): see props/C03/valid_stage.py
+cap_stage = _load("cap_stage")           # field capacity boundaries (id table at 65535 / 65536 / 65537 ids): see props/C03/cap_stage.py
 
 ENV = dict(os.environ, ASAN_OPTIONS="detect_leaks=0")
 COMP_NAME = {1: "gzip", 2: "lzma", 4: "xz", 5: "lz4", 6: "zstd"}
@@ -351,27 +352,55 @@ def tool_search(ctx, tools, specs, drv=None):
 # --------------------------------------------------------------------------
 
 def run(ctx):
+    state = {}
+    try:
+        _run(ctx, state)
+    finally:
+        # a run against a scratch tree (VERIF_REPO) must not leave that tree's probed constants in the shared coq/ directory
+        if state.get("cap_saved") and os.path.realpath(B.REPO) != "/repo":
+            with core.Lock("coq"):
+                cap_stage.restore(state["cap_saved"])
+            ctx.log("GenC03Cap.v of the unchanged tree restored")
+
+
+def _run(ctx, state):
     ctx.log("proof obligations checked; building harnesses and model drivers")
     changed, err = gen.regen()
     if err:
         ctx.proof_broken.append("C03/GenC03.v: " + err)
+    plain = B.build("plain")
+    # field capacity, library leg first: it probes how many ids the id table accepts (-> coq/C03/GenC03Cap.v)
+    h_cap = cap_lib = None
+    try:
+        h_cap = cap_stage.build(plain, HERE)
+        if not ctx.replay:
+            cap_lib = cap_stage.lib_leg(ctx, h_cap, ctx.seed)
+            if cap_lib.get("accepted") is not None and cap_lib.get("widths"):
+                ch2, state["cap_saved"] = cap_stage.regen(cap_lib["accepted"], cap_lib["widths"])
+                if ch2:
+                    ctx.log("GenC03Cap.v changed: the id table of this tree accepts %d ids" % cap_lib["accepted"])
+                changed = changed or ch2
+    except Exception as e:  # the capacity harness no longer builds / runs against the current tree
+        ctx.violation("capacity-harness-failed",
+                      "the field-capacity harness (props/C03/h_cap.c) no longer builds / runs against the current tree: %s" % (str(e)[-600:],),
+                      dict(kind="harness build", detail=str(e)[-3000:]), no_input=True)
     if changed:
-        ctx.log("GenC03.v changed -> re-checking the proofs")
+        ctx.log("GenC03.v / GenC03Cap.v changed -> re-checking the proofs")
         ctx.proof_broken[:] = [b for b in ctx.proof_broken if b.startswith("C03/GenC03.v")]
         core.prepare_proofs(ctx)
     info = B.build("asan")
-    plain = B.build("plain")
     h = B.compile_harness(info, [os.path.join(HERE, "h_dirmeta.c")], "c03_h_dirmeta")
     hc = B.compile_harness(info, [os.path.join(HERE, "h_comp.c")], "c03_h_comp")
     # private copies: vlib.build prunes its cache while other checks build their variants
     bindir = os.path.join(ctx.scratch, "bin")
     os.makedirs(bindir, exist_ok=True)
     tools = {}
-    for name, p in list(plain["tools"].items()) + [("c03_h_dirmeta", h), ("c03_h_comp", hc)]:
+    for name, p in list(plain["tools"].items()) + [("c03_h_dirmeta", h), ("c03_h_comp", hc)] + ([("c03_h_cap", h_cap)] if h_cap else []):
         dst = os.path.join(bindir, name)
         shutil.copy2(p, dst)
         tools[name] = dst
     h, hc = tools["c03_h_dirmeta"], tools["c03_h_comp"]
+    h_cap = tools.get("c03_h_cap")
     try:
         drv = core.build_model_driver("C03", "ExtractC03.v", os.path.join(HERE, "driver.ml"))
     except Exception as e:  # the model no longer compiles/extracts (e.g. a constant changed): proof broke => search
@@ -417,6 +446,9 @@ def run(ctx):
         "zlib/liblzma/liblz4/libzstd), props/C03/image_stage.py (expected tree of a spec, comparison with vlib/sqfsimg.py)",
         "props/C03/h_dirmeta.c, props/C03/driver.ml (command parsing, hex I/O, in-memory sqfs_file_t, toy compressor in C)",
         "props/C03/h_comp.c (re-evaluation of the compressor contract on the real back ends)",
+        "props/C03/h_cap.c (drives the real sqfs_id_table_id_to_index / sqfs_id_table_write on an in-memory file with a compressor that "
+        "never compresses; probe of the number of ids the table accepts -> coq/C03/GenC03Cap.v), props/C03/cap_stage.py (independent "
+        "decoder of the written lookup table, pack file / ustar generators with an exact number of distinct uid + gid values)",
         "props/C03/gen.py (file-local constants -> coq/C03/GenC03.v)",
         "vlib/sqfsimg.py + props/C03/validate_ext.py + props/C03/cases.py:EVAL (independent Python decoders / validators, "
         "written from doc/format.adoc; system zlib/liblzma/liblz4/libzstd for decompression)",
@@ -470,6 +502,18 @@ def run(ctx):
             res = xattr_stage.real_images(ctx, tools, drv_image, drv_xattr, toolgen, [r["spec"]])
             ctx.coverage["evaluations"] = 1
             ctx.coverage["rule"] = "replay of one gensquashfs -A run read by the extracted xattr reader specification"
+        elif kind == "cap-lib" and h_cap:
+            rc, lines, err = cap_stage.lib_run(h_cap, r["id0"], r["stride"])
+            bad = cap_stage.lib_eval(lines, r["id0"], r["stride"])[0] if rc == 0 else [(0, ["h_cap died: " + err[-300:]])]
+            for n, pr in bad[:1]:
+                ctx.violation("field-capacity:id_count:library", "replay: id table of %d ids written invalid: %s" % (n, "; ".join(pr[:3])),
+                              dict(r, problems=pr[:5]))
+            ctx.coverage["evaluations"] = 1
+            ctx.coverage["rule"] = "replay of one id table capacity run (library level)"
+        elif kind == "cap-tool":
+            res = cap_stage.tool_leg(ctx, tools, r.get("seed", ctx.seed), "quick", only=(r["tool"], r["nids"], r["per_dir"]))
+            ctx.coverage["evaluations"] = res["runs"]
+            ctx.coverage["rule"] = "replay of one packer run at the id table capacity boundary"
         else:
             ctx.log("replay file has no re-runnable case (kind=%r)" % kind)
         return
@@ -478,10 +522,11 @@ def run(ctx):
     rnd = random.Random(ctx.seed)
     # the whole-image stage and the xattr stage have their own generators (seeded from ctx.seed) and their own scratch
     # directories: they run beside the component tie / compressor contract / tool search
-    bg = ThreadPoolExecutor(max_workers=2)
+    bg = ThreadPoolExecutor(max_workers=3)
     t0 = time.time()
     f_img = bg.submit(image_stage.stage, ctx, h_image, drv_image, tools, toolgen, ctx.seed, ctx.tier, drv_valid) if h_image else None
     f_xat = bg.submit(xattr_stage.stage, ctx, h_xattr, drv_xattr, drv_image, tools, toolgen, ctx.seed, ctx.tier) if h_xattr else None
+    f_cap = bg.submit(cap_stage.tool_leg, ctx, tools, ctx.seed, ctx.tier)
     cases = cases_mod.all_cases(rnd, ctx.tier)
     comp = component_tie(ctx, h, drv, cases)
     cl = comp_lines(rnd, ctx.tier)
@@ -504,6 +549,11 @@ def run(ctx):
                 "done %.1fs after start" % (xat["exact"]["cases"], xat["exact"]["exact_equal"], xat["exact"]["two_or_more_id_blocks"],
                                             xat["exact"]["max_sets"], xat["real"]["images"], xat["real"]["ok"], xat["real"]["max_sets"],
                                             time.time() - t0))
+    cap_tool = f_cap.result()
+    ctx.log("field capacity: id table accepts %s ids (%s tables written and decoded, %s invalid); tool level %d runs at 65535 / 65536 / 65537 "
+            "distinct ids: %d images (all validated), %d refusals, %d invalid, %.1fs"
+            % (cap_lib and cap_lib.get("accepted"), cap_lib and cap_lib.get("dumps"), cap_lib and cap_lib.get("problems"),
+               cap_tool["runs"], cap_tool["accepted"], cap_tool["refused"], cap_tool["invalid"], cap_tool["wall_s"]))
     bg.shutdown()
 
     ctx.coverage["evaluations"] = comp["cases"] + cc["calls"] + ts["images"] + \
@@ -512,6 +562,9 @@ def run(ctx):
         (img["exact"]["accepted"] + img["real"]["images"] if img else 0) + (xat["exact"]["with_table"] + xat["real"]["images"] if xat else 0)
     ctx.coverage["traces_validated_against_impl"] = comp["cases"] + (img["exact"]["cases"] if img else 0) + \
         (xat["exact"]["cases"] if xat else 0)
+    ctx.coverage["evaluations"] += (cap_lib.get("dumps") or 0 if cap_lib else 0) + cap_tool["runs"]
+    ctx.coverage["distinct_nontrivial"] += (cap_lib.get("dumps") or 0 if cap_lib else 0) + cap_tool["accepted"]
+    ctx.coverage["field_capacity"] = dict(library=cap_lib, tool=cap_tool)
     ctx.coverage["whole_image"] = img
     ctx.coverage["xattr_section"] = xat
     ctx.coverage["rule"] = (
@@ -540,7 +593,12 @@ def run(ctx):
         "image of the whole-image stage and on up to 3 (thorough: 6) byte-surgery mutations of each small image (13 kinds: size "
         "word above the block size, uncompressed bit flipped, blocks_start before the data area, corrupted compressed block, "
         "fragment index / offset / entry start / entry size out of range, xattr index out of range, export slots swapped, link "
-        "count + 1, directory link count + 1, parent inode number), every verdict compared with validate_ext" % ctx.seed)
+        "count + 1, directory link count + 1, parent inode number), every verdict compared with validate_ext; field capacity "
+        "(props/C03/cap_stage.py): the real id table filled with up to 70000 distinct ids (seeded start / stride), written by "
+        "sqfs_id_table_write at 1, 2, 255..257, 2047..2049, 4096, 65534..65537 accepted ids and decoded independently (id_count = "
+        "number of ids, last index = count - 1, table bytes = ids offered); gensquashfs pack files and tar2sqfs ustar streams with "
+        "exactly 65535 / 65536 / 65537 (thorough: + 65534, 70000) distinct uid + gid values in sub-directories of 255 / 256 / 257 "
+        "entries, every image produced through validate_ext + id census" % ctx.seed)
     ctx.coverage["component"] = comp
     ctx.coverage["compressor_contract"] = cc
     ctx.coverage["tool_level"] = ts
